@@ -217,3 +217,14 @@ Definition wf_ra (hostmac hostlla : bytes) (mtu : N) (prefixes : list (N * bytes
       && icmp6_cks_ok fr
   | _ => false
   end.
+
+(* ---------------------------------------------------------------- *)
+(* any ICMPv6 message from the host: type, code, body predicate, addresses, hop limit rule, checksum *)
+Definition wf_icmp6 (hostmac dmac sip dip : bytes) (typ code : N) (body_ok : bytes -> bool) (fr : bytes) : bool :=
+  match ref_decode fr with
+  | Some (mkFrame d s et (L3Ip6 _ nh hop a b (L4Icmp t c rest))) =>
+      (et =? 34525) && (nh =? 58) && (t =? typ) && (c =? code)
+      && beq d dmac && beq s hostmac && beq a sip && beq b dip && ndp_hop_ok b hop
+      && body_ok rest && icmp6_cks_ok fr
+  | _ => false
+  end.
